@@ -105,6 +105,7 @@ func rulesC19(c *Ctx) {
 	ruleStatusOptions(c)
 	ruleCompareStructural(c)
 	ruleStopCloses(c)            // fluent's Stop ends the session whenever a client is held
+	ruleCleanupOrder(c)          // and the tests' deferred flush / Stop run in the order that ends the session
 	clearPendingTable(c, false)  // a result for an operation the client never sent surfaces as a receive error, which is what the isolation tests look for (shared with C13, whose known finding F25 — the FIB-ack tolerance — is its own)
 	ruleClientErrorConversion(c) // the count matchers examine the caller's own error (shared with C17)
 	ruleConnectLifecycle(c)      // a finished test's session really ends (Stop → Close → disconnect on every path): a session left open constrains the parameters of every later test on a long-lived server (shared with C14)
@@ -838,4 +839,45 @@ func ruleStopCloses(c *Ctx) {
 			return "effects[StopSending,Close]", true
 		},
 	})
+}
+
+// CLEANUP-ORDER — deferred calls run last-in first-out: a `defer flushServer(x, t)` declared after `defer x.Stop(t)`
+// runs before that Stop, on a client whose session is still open; flushServer restarts the client, the Stop then
+// closes the replacement and the first session stays registered on a long-lived server — every later test that
+// negotiates other parameters fails. The flush of a client is deferred before (runs after) the Stop of that client.
+func ruleCleanupOrder(c *Ctx) {
+	const rule = "CLEANUP-ORDER"
+	n := 0
+	var bad []string
+	for _, fi := range c.P.AllFuncs("compliance") {
+		if fi.Decl.Body == nil {
+			continue
+		}
+		info := fi.Pkg.TypesInfo
+		stopped := map[types.Object]token.Pos{}
+		for _, st := range fi.Decl.Body.List {
+			ds, ok := st.(*ast.DeferStmt)
+			if !ok {
+				continue
+			}
+			if se, ok := ast.Unparen(ds.Call.Fun).(*ast.SelectorExpr); ok && se.Sel.Name == "Stop" {
+				if o := objOfIdent(info, se.X); o != nil {
+					stopped[o] = ds.Pos()
+				}
+				continue
+			}
+			if f, ok := calleeObj(info, ds.Call).(*types.Func); ok && f.Name() == "flushServer" && len(ds.Call.Args) >= 1 {
+				n++
+				if o := objOfIdent(info, ds.Call.Args[0]); o != nil {
+					if _, was := stopped[o]; was {
+						bad = append(bad, fmt.Sprintf("%s: flushServer(%s) deferred at %s after %s.Stop", fi.Name, o.Name(), c.P.pos(ds.Pos()), o.Name()))
+					}
+				}
+			}
+		}
+	}
+	c.Sites += n
+	c.check(len(bad) == 0, rule, "compliance", "a client's flush is deferred before its Stop", "-", fmt.Sprintf("%d deferred flushes, none declared after the Stop of the same client", n),
+		"the deferred flush runs before the client's deferred Stop (last-in first-out), on a session that is still open: "+strings.Join(bad, "; "))
+	c.floor(rule, "deferred flushServer calls in the compliance tests", n, 20)
 }
